@@ -52,19 +52,34 @@ fn viol<T>(inv: impl Into<String>, detail: impl Into<String>) -> HResult<Result<
 
 /// Apply one call to the real builder under catch_unwind and reconcile with the prediction.
 /// Ok(Ok(Some(b))): continue; Ok(Ok(None)): history ended legitimately; Ok(Err(v)): violation.
-fn apply<B>(b: B, ap: Ap<B>, pred: Pred, expect_err: Option<&str>, step: &Step, idx: usize) -> Result<Option<B>, Violation> {
+fn apply<B>(
+    b: B,
+    ap: Ap<B>,
+    pred: Pred,
+    expect_err: Option<&str>,
+    step: &Step,
+    idx: usize,
+) -> Result<Option<B>, Violation> {
     match guarded(move || ap(b)) {
         Ok(Ok(nb)) => {
             if pred == Pred::Refuse {
                 return Err(Violation::new(
                     "C19.refusal",
-                    format!("step {} `{}`: call was accepted but its documentation says it is refused", idx, step.summary()),
+                    format!(
+                        "step {} `{}`: call was accepted but its documentation says it is refused",
+                        idx,
+                        step.summary()
+                    ),
                 ));
             }
             if expect_err.is_some() {
                 return Err(Violation::new(
                     "C19.try-error",
-                    format!("step {} `{}`: creator failed but the fallible helper returned Ok", idx, step.summary()),
+                    format!(
+                        "step {} `{}`: creator failed but the fallible helper returned Ok",
+                        idx,
+                        step.summary()
+                    ),
                 ));
             }
             Ok(Some(nb))
@@ -75,7 +90,13 @@ fn apply<B>(b: B, ap: Ap<B>, pred: Pred, expect_err: Option<&str>, step: &Step, 
                 Some(x) if x == e => Ok(None),
                 _ => Err(Violation::new(
                     "C19.try-error",
-                    format!("step {} `{}`: fallible helper returned error {:?}, expected {:?}", idx, step.summary(), e, expect_err),
+                    format!(
+                        "step {} `{}`: fallible helper returned error {:?}, expected {:?}",
+                        idx,
+                        step.summary(),
+                        e,
+                        expect_err
+                    ),
                 )),
             }
         }
@@ -97,7 +118,11 @@ macro_rules! cmp_field {
         if $want != $got {
             return Ok(Some(Violation::new(
                 format!("C19.field({})", $name),
-                format!("model {:?} != built {:?}", short(&format!("{:?}", $want)), short(&format!("{:?}", $got))),
+                format!(
+                    "model {:?} != built {:?}",
+                    short(&format!("{:?}", $want)),
+                    short(&format!("{:?}", $got))
+                ),
             )));
         }
     };
@@ -146,13 +171,21 @@ fn cmp_protected(name: &str, want: &MProtected, got: &MProtected) -> Option<Viol
     if got.original.is_some() && want.original.is_none() {
         return Some(Violation::new(
             "C19.wire-bytes-kept",
-            format!("{}: built value retains wire bytes {:?}", name, got.original.as_ref().map(|b| crate::util::hex_short(b))),
+            format!(
+                "{}: built value retains wire bytes {:?}",
+                name,
+                got.original.as_ref().map(|b| crate::util::hex_short(b))
+            ),
         ));
     }
     if want != got {
         return Some(Violation::new(
             format!("C19.field({})", name),
-            format!("model {} != built {}", short(&format!("{:?}", want)), short(&format!("{:?}", got))),
+            format!(
+                "model {} != built {}",
+                short(&format!("{:?}", want)),
+                short(&format!("{:?}", got))
+            ),
         ));
     }
     None
@@ -164,7 +197,11 @@ fn cmp_header(prefix: &str, want: &MHeader, got: &MHeader) -> Option<Violation> 
             if want.$f != got.$f {
                 return Some(Violation::new(
                     format!("C19.field({}{})", prefix, stringify!($f)),
-                    format!("model {} != built {}", short(&format!("{:?}", want.$f)), short(&format!("{:?}", got.$f))),
+                    format!(
+                        "model {} != built {}",
+                        short(&format!("{:?}", want.$f)),
+                        short(&format!("{:?}", got.$f))
+                    ),
                 ));
             }
         };
@@ -184,7 +221,10 @@ fn cmp_header(prefix: &str, want: &MHeader, got: &MHeader) -> Option<Violation> 
 // generation
 // ------------------------------------------------------------------------------------------
 
-use crate::palette::{all_algs, all_claim_names, all_content_formats, all_curves, all_header_params, all_key_ops, all_key_types};
+use crate::palette::{
+    all_algs, all_claim_names, all_content_formats, all_curves, all_header_params, all_key_ops,
+    all_key_types,
+};
 
 /// Byte strings that look like real key material: SEC1 elliptic-curve points (uncompressed
 /// 04||X||Y, compressed 02/03||X) for the usual field sizes, DER prefixes, all-zero and all-ff
@@ -247,7 +287,10 @@ fn a_small(rng: &mut Rng) -> Arg {
 }
 fn a_text(rng: &mut Rng) -> Arg {
     if rng.chance(1, 4) {
-        return Arg::T(crate::traffic::gen_text(rng, &crate::traffic::GenCfg::small()));
+        return Arg::T(crate::traffic::gen_text(
+            rng,
+            &crate::traffic::GenCfg::small(),
+        ));
     }
     Arg::T(text_palette()[pick_text_idx(rng)].clone())
 }
@@ -296,18 +339,47 @@ fn gen_op(builder: &str, rng: &mut Rng) -> Step {
         "Header" => match rng.below(11) {
             0 => o("key_id", vec![a_bytes(rng)]),
             1 => o("algorithm", vec![a_reg(rng, ALGS, all_algs())]),
-            2 => o("add_critical", vec![a_reg(rng, HEADER_PARAMS, all_header_params())]),
+            2 => o(
+                "add_critical",
+                vec![a_reg(rng, HEADER_PARAMS, all_header_params())],
+            ),
             3 => {
                 if rng.bool() {
-                    o("add_critical_label", vec![Arg::S("int".into()), a_reg(rng, HEADER_PARAMS, all_header_params())])
+                    o(
+                        "add_critical_label",
+                        vec![
+                            Arg::S("int".into()),
+                            a_reg(rng, HEADER_PARAMS, all_header_params()),
+                        ],
+                    )
                 } else {
-                    o("add_critical_label", vec![Arg::S("text".into()), a_text(rng)])
+                    o(
+                        "add_critical_label",
+                        vec![Arg::S("text".into()), a_text(rng)],
+                    )
                 }
             }
-            4 => o("content_format", vec![a_reg(rng, CONTENT_FORMATS, all_content_formats())]),
+            4 => o(
+                "content_format",
+                vec![a_reg(rng, CONTENT_FORMATS, all_content_formats())],
+            ),
             5 => o("content_type", vec![a_text(rng)]),
-            6 => o("iv", vec![if rng.chance(1, 6) { a_bytes(rng) } else { a_small(rng) }]),
-            7 => o("partial_iv", vec![if rng.chance(1, 6) { a_bytes(rng) } else { a_small(rng) }]),
+            6 => o(
+                "iv",
+                vec![if rng.chance(1, 6) {
+                    a_bytes(rng)
+                } else {
+                    a_small(rng)
+                }],
+            ),
+            7 => o(
+                "partial_iv",
+                vec![if rng.chance(1, 6) {
+                    a_bytes(rng)
+                } else {
+                    a_small(rng)
+                }],
+            ),
             8 => o("add_counter_signature", gen_sig_args(rng)),
             9 => o("value", vec![a_label(rng), a_val(rng)]),
             _ => o("text_value", vec![a_text(rng), a_val(rng)]),
@@ -349,9 +421,18 @@ fn gen_op(builder: &str, rng: &mut Rng) -> Step {
             2 => o("signature", vec![a_bytes(rng)]),
             3 => o("payload", vec![a_bytes(rng)]),
             4 => o("create_signature", vec![a_small(rng), a_tok(rng)]),
-            5 => o("create_detached_signature", vec![a_small(rng), a_small(rng), a_tok(rng)]),
-            6 => o("try_create_signature", vec![a_small(rng), a_tok(rng), a_fail(rng)]),
-            _ => o("try_create_detached_signature", vec![a_small(rng), a_small(rng), a_tok(rng), a_fail(rng)]),
+            5 => o(
+                "create_detached_signature",
+                vec![a_small(rng), a_small(rng), a_tok(rng)],
+            ),
+            6 => o(
+                "try_create_signature",
+                vec![a_small(rng), a_tok(rng), a_fail(rng)],
+            ),
+            _ => o(
+                "try_create_detached_signature",
+                vec![a_small(rng), a_small(rng), a_tok(rng), a_fail(rng)],
+            ),
         },
         "CoseMac" | "CoseMac0" => {
             let n = if builder == "CoseMac" { 7 } else { 6 };
@@ -361,7 +442,10 @@ fn gen_op(builder: &str, rng: &mut Rng) -> Step {
                 2 => o("tag", vec![a_bytes(rng)]),
                 3 => o("payload", vec![a_bytes(rng)]),
                 4 => o("create_tag", vec![a_small(rng), a_tok(rng)]),
-                5 => o("try_create_tag", vec![a_small(rng), a_tok(rng), a_fail(rng)]),
+                5 => o(
+                    "try_create_tag",
+                    vec![a_small(rng), a_tok(rng), a_fail(rng)],
+                ),
                 _ => o("add_recipient", gen_recipient_args(rng)),
             }
         }
@@ -371,8 +455,14 @@ fn gen_op(builder: &str, rng: &mut Rng) -> Step {
                 0 => o("protected", vec![a_hdr(rng)]),
                 1 => o("unprotected", vec![a_hdr(rng)]),
                 2 => o("ciphertext", vec![a_bytes(rng)]),
-                3 => o("create_ciphertext", vec![a_small(rng), a_small(rng), a_tok(rng)]),
-                4 => o("try_create_ciphertext", vec![a_small(rng), a_small(rng), a_tok(rng), a_fail(rng)]),
+                3 => o(
+                    "create_ciphertext",
+                    vec![a_small(rng), a_small(rng), a_tok(rng)],
+                ),
+                4 => o(
+                    "try_create_ciphertext",
+                    vec![a_small(rng), a_small(rng), a_tok(rng), a_fail(rng)],
+                ),
                 _ => o("add_recipient", gen_recipient_args(rng)),
             }
         }
@@ -383,18 +473,46 @@ fn gen_op(builder: &str, rng: &mut Rng) -> Step {
             3 => o("add_recipient", gen_recipient_args(rng)),
             4 => {
                 // mostly recipient contexts; sometimes a non-recipient one (documented refusal)
-                let c = if rng.chance(1, 6) { rng.below(2) } else { 2 + rng.below(3) };
-                o("create_ciphertext", vec![Arg::S(ctx_name(c).into()), a_small(rng), a_small(rng), a_tok(rng)])
+                let c = if rng.chance(1, 6) {
+                    rng.below(2)
+                } else {
+                    2 + rng.below(3)
+                };
+                o(
+                    "create_ciphertext",
+                    vec![
+                        Arg::S(ctx_name(c).into()),
+                        a_small(rng),
+                        a_small(rng),
+                        a_tok(rng),
+                    ],
+                )
             }
             _ => {
-                let c = if rng.chance(1, 6) { rng.below(2) } else { 2 + rng.below(3) };
-                o("try_create_ciphertext", vec![Arg::S(ctx_name(c).into()), a_small(rng), a_small(rng), a_tok(rng), a_fail(rng)])
+                let c = if rng.chance(1, 6) {
+                    rng.below(2)
+                } else {
+                    2 + rng.below(3)
+                };
+                o(
+                    "try_create_ciphertext",
+                    vec![
+                        Arg::S(ctx_name(c).into()),
+                        a_small(rng),
+                        a_small(rng),
+                        a_tok(rng),
+                        a_fail(rng),
+                    ],
+                )
             }
         },
         "CoseKey" => match rng.below(7) {
             0 => {
                 if rng.bool() {
-                    o("kty", vec![Arg::S("int".into()), a_reg(rng, KEY_TYPES, all_key_types())])
+                    o(
+                        "kty",
+                        vec![Arg::S("int".into()), a_reg(rng, KEY_TYPES, all_key_types())],
+                    )
                 } else {
                     o("kty", vec![Arg::S("text".into()), a_text(rng)])
                 }
@@ -414,9 +532,22 @@ fn gen_op(builder: &str, rng: &mut Rng) -> Step {
             4 => o("not_before", gen_ts(rng)),
             5 => o("issued_at", gen_ts(rng)),
             6 => o("cwt_id", vec![a_bytes(rng)]),
-            7 => o("claim", vec![a_reg(rng, CLAIM_NAMES, all_claim_names()), a_val(rng)]),
+            7 => o(
+                "claim",
+                vec![a_reg(rng, CLAIM_NAMES, all_claim_names()), a_val(rng)],
+            ),
             8 => o("text_claim", vec![a_text(rng), a_val(rng)]),
-            _ => o("private_claim", vec![if rng.chance(1, 3) { Arg::I(-65530 - rng.below(20) as i128) } else { a_from(rng, PRIVATE_IDS) }, a_val(rng)]),
+            _ => o(
+                "private_claim",
+                vec![
+                    if rng.chance(1, 3) {
+                        Arg::I(-65530 - rng.below(20) as i128)
+                    } else {
+                        a_from(rng, PRIVATE_IDS)
+                    },
+                    a_val(rng),
+                ],
+            ),
         },
         "PartyInfo" => match rng.below(3) {
             0 => o("identity", vec![a_bytes(rng)]),
@@ -430,7 +561,14 @@ fn gen_op(builder: &str, rng: &mut Rng) -> Step {
             _ => o("other", vec![a_bytes(rng)]),
         },
         "SuppPubInfo" => match rng.below(3) {
-            0 => o("key_data_length", vec![if rng.chance(1, 3) { Arg::I((rng.next_u64() >> rng.below(64)) as i128) } else { Arg::I(*rng.pick(KEY_DATA_LENGTHS) as i128) }]),
+            0 => o(
+                "key_data_length",
+                vec![if rng.chance(1, 3) {
+                    Arg::I((rng.next_u64() >> rng.below(64)) as i128)
+                } else {
+                    Arg::I(*rng.pick(KEY_DATA_LENGTHS) as i128)
+                }],
+            ),
             1 => o("protected", vec![a_hdr(rng)]),
             _ => o("other", vec![a_bytes(rng)]),
         },
@@ -450,7 +588,12 @@ fn a_party(rng: &mut Rng) -> Arg {
     if rng.bool() {
         let p = crate::traffic::gen_party(rng, &crate::traffic::GenCfg::small());
         let b = refcbor::encode(&p.to_item());
-        if refcbor::read_exact(&b).ok().and_then(|i| MPartyInfo::from_item(&i)).as_ref() == Some(&p) {
+        if refcbor::read_exact(&b)
+            .ok()
+            .and_then(|i| MPartyInfo::from_item(&i))
+            .as_ref()
+            == Some(&p)
+        {
             return Arg::B(b);
         }
     }
@@ -460,7 +603,12 @@ fn a_supp(rng: &mut Rng) -> Arg {
     if rng.bool() {
         let p = crate::traffic::gen_supp(rng, &crate::traffic::GenCfg::small());
         let b = refcbor::encode(&p.to_item());
-        if refcbor::read_exact(&b).ok().and_then(|i| MSuppPubInfo::from_item(&i)).as_ref() == Some(&p) {
+        if refcbor::read_exact(&b)
+            .ok()
+            .and_then(|i| MSuppPubInfo::from_item(&i))
+            .as_ref()
+            == Some(&p)
+        {
             return Arg::B(b);
         }
     }
@@ -468,14 +616,26 @@ fn a_supp(rng: &mut Rng) -> Arg {
 }
 fn party_from(s: &Step, parties: &[MPartyInfo]) -> HResult<MPartyInfo> {
     match s.args.first() {
-        Some(Arg::B(b)) => refcbor::read_exact(b).ok().and_then(|i| MPartyInfo::from_item(&i)).ok_or_else(|| HarnessError("party argument".into())),
-        _ => parties.get(s.usize(0)?).cloned().ok_or_else(|| HarnessError("party index".into())),
+        Some(Arg::B(b)) => refcbor::read_exact(b)
+            .ok()
+            .and_then(|i| MPartyInfo::from_item(&i))
+            .ok_or_else(|| HarnessError("party argument".into())),
+        _ => parties
+            .get(s.usize(0)?)
+            .cloned()
+            .ok_or_else(|| HarnessError("party index".into())),
     }
 }
 fn supp_from(s: &Step, supps: &[MSuppPubInfo]) -> HResult<MSuppPubInfo> {
     match s.args.first() {
-        Some(Arg::B(b)) => refcbor::read_exact(b).ok().and_then(|i| MSuppPubInfo::from_item(&i)).ok_or_else(|| HarnessError("supp argument".into())),
-        _ => supps.get(s.usize(0)?).cloned().ok_or_else(|| HarnessError("supp index".into())),
+        Some(Arg::B(b)) => refcbor::read_exact(b)
+            .ok()
+            .and_then(|i| MSuppPubInfo::from_item(&i))
+            .ok_or_else(|| HarnessError("supp argument".into())),
+        _ => supps
+            .get(s.usize(0)?)
+            .cloned()
+            .ok_or_else(|| HarnessError("supp index".into())),
     }
 }
 
@@ -486,7 +646,10 @@ fn gen_ts(rng: &mut Rng) -> Vec<Arg> {
         // any bit pattern, including NaN, infinities and subnormals
         vec![Arg::S("frac".into()), Arg::I(rng.next_u64() as i128)]
     } else {
-        vec![Arg::S("frac".into()), Arg::I(rng.pick(TIMESTAMPS_FRAC).to_bits() as i128)]
+        vec![
+            Arg::S("frac".into()),
+            Arg::I(rng.pick(TIMESTAMPS_FRAC).to_bits() as i128),
+        ]
     }
 }
 
@@ -504,9 +667,47 @@ fn gen_ctor(builder: &str, rng: &mut Rng) -> Step {
         match rng.below(7) {
             0 => c("new", vec![]),
             1 => c("default", vec![]),
-            2 => c("new_ec2_pub_key", vec![a_reg(rng, CURVES, all_curves()), if rng.chance(1, 4) { Arg::B(key_material(rng)) } else { a_bytes(rng) }, if rng.chance(1, 4) { Arg::B(vec![]) } else { a_bytes(rng) }]),
-            3 => c("new_ec2_pub_key_y_sign", vec![a_reg(rng, CURVES, all_curves()), a_bytes(rng), Arg::I(rng.below(2) as i128)]),
-            4 => c("new_ec2_priv_key", vec![a_reg(rng, CURVES, all_curves()), if rng.chance(1, 4) { Arg::B(key_material(rng)) } else { a_bytes(rng) }, if rng.chance(1, 4) { Arg::B(vec![]) } else { a_bytes(rng) }, a_bytes(rng)]),
+            2 => c(
+                "new_ec2_pub_key",
+                vec![
+                    a_reg(rng, CURVES, all_curves()),
+                    if rng.chance(1, 4) {
+                        Arg::B(key_material(rng))
+                    } else {
+                        a_bytes(rng)
+                    },
+                    if rng.chance(1, 4) {
+                        Arg::B(vec![])
+                    } else {
+                        a_bytes(rng)
+                    },
+                ],
+            ),
+            3 => c(
+                "new_ec2_pub_key_y_sign",
+                vec![
+                    a_reg(rng, CURVES, all_curves()),
+                    a_bytes(rng),
+                    Arg::I(rng.below(2) as i128),
+                ],
+            ),
+            4 => c(
+                "new_ec2_priv_key",
+                vec![
+                    a_reg(rng, CURVES, all_curves()),
+                    if rng.chance(1, 4) {
+                        Arg::B(key_material(rng))
+                    } else {
+                        a_bytes(rng)
+                    },
+                    if rng.chance(1, 4) {
+                        Arg::B(vec![])
+                    } else {
+                        a_bytes(rng)
+                    },
+                    a_bytes(rng),
+                ],
+            ),
             5 => c("new_symmetric_key", vec![a_bytes(rng)]),
             _ => c("new_okp_key", vec![]),
         }
@@ -518,12 +719,14 @@ fn gen_ctor(builder: &str, rng: &mut Rng) -> Step {
 }
 
 fn curve(i: i64) -> HResult<iana::EllipticCurve> {
-    iana::EllipticCurve::from_i64(i).ok_or_else(|| HarnessError(format!("curve {} not in registry", i)))
+    iana::EllipticCurve::from_i64(i)
+        .ok_or_else(|| HarnessError(format!("curve {} not in registry", i)))
 }
 
 macro_rules! reg_or_herr {
     ($t:ty, $i:expr) => {
-        <$t>::from_i64($i).ok_or_else(|| HarnessError(format!("{} {} not in registry", stringify!($t), $i)))
+        <$t>::from_i64($i)
+            .ok_or_else(|| HarnessError(format!("{} {} not in registry", stringify!($t), $i)))
     };
 }
 
@@ -554,36 +757,62 @@ macro_rules! drive {
 }
 
 fn ctor_name(t: &Trace) -> &str {
-    t.steps.iter().find(|s| s.kind == "ctor").map(|s| s.name.as_str()).unwrap_or("new")
+    t.steps
+        .iter()
+        .find(|s| s.kind == "ctor")
+        .map(|s| s.name.as_str())
+        .unwrap_or("new")
 }
 
 fn exec_header(t: &Trace) -> HResult<Option<Violation>> {
-    let mut b = if ctor_name(t) == "default" { coset::HeaderBuilder::default() } else { coset::HeaderBuilder::new() };
+    let mut b = if ctor_name(t) == "default" {
+        coset::HeaderBuilder::default()
+    } else {
+        coset::HeaderBuilder::new()
+    };
     let mut m = MHeader::default();
     drive!(b, t.steps, |s| {
         match s.name.as_str() {
             "key_id" => {
                 let v = s.bytes(0)?.to_vec();
                 m.key_id = v.clone();
-                (Pred::Accept, ok(move |b: coset::HeaderBuilder| b.key_id(v)), None)
+                (
+                    Pred::Accept,
+                    ok(move |b: coset::HeaderBuilder| b.key_id(v)),
+                    None,
+                )
             }
             "algorithm" => {
                 let i = s.i64(0)?;
                 let a = reg_or_herr!(iana::Algorithm, i)?;
                 m.alg = Some(MRegP::Assigned(i));
-                (Pred::Accept, ok(move |b: coset::HeaderBuilder| b.algorithm(a)), None)
+                (
+                    Pred::Accept,
+                    ok(move |b: coset::HeaderBuilder| b.algorithm(a)),
+                    None,
+                )
             }
             "add_critical" => {
                 let i = s.i64(0)?;
                 let p = reg_or_herr!(iana::HeaderParameter, i)?;
                 m.crit.push(MReg::Assigned(i));
-                (Pred::Accept, ok(move |b: coset::HeaderBuilder| b.add_critical(p)), None)
+                (
+                    Pred::Accept,
+                    ok(move |b: coset::HeaderBuilder| b.add_critical(p)),
+                    None,
+                )
             }
             "add_critical_label" => {
                 let (ml, cl) = match s.sym(0)? {
                     "int" => {
                         let i = s.i64(1)?;
-                        (MReg::Assigned(i), coset::RegisteredLabel::Assigned(reg_or_herr!(iana::HeaderParameter, i)?))
+                        (
+                            MReg::Assigned(i),
+                            coset::RegisteredLabel::Assigned(reg_or_herr!(
+                                iana::HeaderParameter,
+                                i
+                            )?),
+                        )
                     }
                     _ => {
                         let x = s.text(1)?.to_string();
@@ -591,53 +820,89 @@ fn exec_header(t: &Trace) -> HResult<Option<Violation>> {
                     }
                 };
                 m.crit.push(ml);
-                (Pred::Accept, ok(move |b: coset::HeaderBuilder| b.add_critical_label(cl)), None)
+                (
+                    Pred::Accept,
+                    ok(move |b: coset::HeaderBuilder| b.add_critical_label(cl)),
+                    None,
+                )
             }
             "content_format" => {
                 let i = s.i64(0)?;
                 let f = reg_or_herr!(iana::CoapContentFormat, i)?;
                 m.content_type = Some(MReg::Assigned(i));
-                (Pred::Accept, ok(move |b: coset::HeaderBuilder| b.content_format(f)), None)
+                (
+                    Pred::Accept,
+                    ok(move |b: coset::HeaderBuilder| b.content_format(f)),
+                    None,
+                )
             }
             "content_type" => {
                 let x = s.text(0)?.to_string();
                 m.content_type = Some(MReg::Text(x.clone()));
-                (Pred::Accept, ok(move |b: coset::HeaderBuilder| b.content_type(x)), None)
+                (
+                    Pred::Accept,
+                    ok(move |b: coset::HeaderBuilder| b.content_type(x)),
+                    None,
+                )
             }
             "iv" => {
                 let v = s.bytes(0)?.to_vec();
                 m.iv = v.clone();
                 m.partial_iv.clear();
-                (Pred::Accept, ok(move |b: coset::HeaderBuilder| b.iv(v)), None)
+                (
+                    Pred::Accept,
+                    ok(move |b: coset::HeaderBuilder| b.iv(v)),
+                    None,
+                )
             }
             "partial_iv" => {
                 let v = s.bytes(0)?.to_vec();
                 m.partial_iv = v.clone();
                 m.iv.clear();
-                (Pred::Accept, ok(move |b: coset::HeaderBuilder| b.partial_iv(v)), None)
+                (
+                    Pred::Accept,
+                    ok(move |b: coset::HeaderBuilder| b.partial_iv(v)),
+                    None,
+                )
             }
             "add_counter_signature" => {
                 let sig = sig_from_args(s, 0)?;
                 let cs = sig.to_coset();
                 m.counter_signatures.push(sig);
-                (Pred::Accept, ok(move |b: coset::HeaderBuilder| b.add_counter_signature(cs)), None)
+                (
+                    Pred::Accept,
+                    ok(move |b: coset::HeaderBuilder| b.add_counter_signature(cs)),
+                    None,
+                )
             }
             "value" => {
                 let l = s.i64(0)?;
                 let v = value_from_arg(s, 1)?;
                 let cv = v.to_value();
-                let pred = if (1..=7).contains(&l) { Pred::Refuse } else { Pred::Accept };
+                let pred = if (1..=7).contains(&l) {
+                    Pred::Refuse
+                } else {
+                    Pred::Accept
+                };
                 if pred == Pred::Accept {
                     m.rest.push((MLabel::Int(l), v));
                 }
-                (pred, ok(move |b: coset::HeaderBuilder| b.value(l, cv)), None)
+                (
+                    pred,
+                    ok(move |b: coset::HeaderBuilder| b.value(l, cv)),
+                    None,
+                )
             }
             "text_value" => {
                 let l = s.text(0)?.to_string();
                 let v = value_from_arg(s, 1)?;
                 let cv = v.to_value();
                 m.rest.push((MLabel::Text(l.clone()), v));
-                (Pred::Accept, ok(move |b: coset::HeaderBuilder| b.text_value(l, cv)), None)
+                (
+                    Pred::Accept,
+                    ok(move |b: coset::HeaderBuilder| b.text_value(l, cv)),
+                    None,
+                )
             }
             x => return herr(format!("Header: unknown op {}", x)),
         }
@@ -645,7 +910,10 @@ fn exec_header(t: &Trace) -> HResult<Option<Violation>> {
     let built = b.build();
     let got = MHeader::from_coset(&built);
     if !got.iv.is_empty() && !got.partial_iv.is_empty() {
-        return Ok(Some(Violation::new("C19.iv-both", format!("iv={:?} partial_iv={:?}", got.iv, got.partial_iv))));
+        return Ok(Some(Violation::new(
+            "C19.iv-both",
+            format!("iv={:?} partial_iv={:?}", got.iv, got.partial_iv),
+        )));
     }
     if let Some(v) = cmp_header("", &m, &got) {
         return Ok(Some(v));
@@ -654,7 +922,11 @@ fn exec_header(t: &Trace) -> HResult<Option<Violation>> {
 }
 
 fn exec_signature(t: &Trace) -> HResult<Option<Violation>> {
-    let mut b = if ctor_name(t) == "default" { coset::CoseSignatureBuilder::default() } else { coset::CoseSignatureBuilder::new() };
+    let mut b = if ctor_name(t) == "default" {
+        coset::CoseSignatureBuilder::default()
+    } else {
+        coset::CoseSignatureBuilder::new()
+    };
     let mut m = MSignature::default();
     drive!(b, t.steps, |s| {
         match s.name.as_str() {
@@ -662,18 +934,30 @@ fn exec_signature(t: &Trace) -> HResult<Option<Violation>> {
                 let h = header_from_arg(s, 0)?;
                 let ch = h.to_coset();
                 m.protected = MProtected::built(h);
-                (Pred::Accept, ok(move |b: coset::CoseSignatureBuilder| b.protected(ch)), None)
+                (
+                    Pred::Accept,
+                    ok(move |b: coset::CoseSignatureBuilder| b.protected(ch)),
+                    None,
+                )
             }
             "unprotected" => {
                 let h = header_from_arg(s, 0)?;
                 let ch = h.to_coset();
                 m.unprotected = h;
-                (Pred::Accept, ok(move |b: coset::CoseSignatureBuilder| b.unprotected(ch)), None)
+                (
+                    Pred::Accept,
+                    ok(move |b: coset::CoseSignatureBuilder| b.unprotected(ch)),
+                    None,
+                )
             }
             "signature" => {
                 let v = s.bytes(0)?.to_vec();
                 m.signature = v.clone();
-                (Pred::Accept, ok(move |b: coset::CoseSignatureBuilder| b.signature(v)), None)
+                (
+                    Pred::Accept,
+                    ok(move |b: coset::CoseSignatureBuilder| b.signature(v)),
+                    None,
+                )
             }
             x => return herr(format!("CoseSignature: unknown op {}", x)),
         }
@@ -713,7 +997,11 @@ macro_rules! hdr_ops {
 
 fn exec_sign(t: &Trace) -> HResult<Option<Violation>> {
     type B = coset::CoseSignBuilder;
-    let mut b = if ctor_name(t) == "default" { B::default() } else { B::new() };
+    let mut b = if ctor_name(t) == "default" {
+        B::default()
+    } else {
+        B::new()
+    };
     let mut m = MSign::default();
     drive!(b, t.steps, |s| {
         if let Some(x) = hdr_ops!(s, m, B) {
@@ -738,7 +1026,11 @@ fn exec_sign(t: &Trace) -> HResult<Option<Violation>> {
                     let tok = s.bytes(4)?.to_vec();
                     sig.signature = tok.clone();
                     m.signatures.push(sig);
-                    (Pred::Accept, ok(move |b: B| b.add_created_signature(cs, &aad, |_| tok)), None)
+                    (
+                        Pred::Accept,
+                        ok(move |b: B| b.add_created_signature(cs, &aad, |_| tok)),
+                        None,
+                    )
                 }
                 "add_detached_signature" => {
                     let mut sig = sig_from_args(s, 0)?;
@@ -746,12 +1038,20 @@ fn exec_sign(t: &Trace) -> HResult<Option<Violation>> {
                     let pl = s.bytes(3)?.to_vec();
                     let aad = s.bytes(4)?.to_vec();
                     let tok = s.bytes(5)?.to_vec();
-                    let pred = if m.payload.is_some() { Pred::Refuse } else { Pred::Accept };
+                    let pred = if m.payload.is_some() {
+                        Pred::Refuse
+                    } else {
+                        Pred::Accept
+                    };
                     if pred == Pred::Accept {
                         sig.signature = tok.clone();
                         m.signatures.push(sig);
                     }
-                    (pred, ok(move |b: B| b.add_detached_signature(cs, &pl, &aad, |_| tok)), None)
+                    (
+                        pred,
+                        ok(move |b: B| b.add_detached_signature(cs, &pl, &aad, |_| tok)),
+                        None,
+                    )
                 }
                 "try_add_created_signature" => {
                     let mut sig = sig_from_args(s, 0)?;
@@ -766,7 +1066,11 @@ fn exec_sign(t: &Trace) -> HResult<Option<Violation>> {
                     }
                     let e2 = e.clone();
                     let ap: Ap<B> = Box::new(move |b: B| {
-                        b.try_add_created_signature(cs, &aad, |_| if fail { Err(e2) } else { Ok(tok) })
+                        b.try_add_created_signature(
+                            cs,
+                            &aad,
+                            |_| if fail { Err(e2) } else { Ok(tok) },
+                        )
                     });
                     (Pred::Accept, ap, if fail { Some(e) } else { None })
                 }
@@ -778,16 +1082,34 @@ fn exec_sign(t: &Trace) -> HResult<Option<Violation>> {
                     let tok = s.bytes(5)?.to_vec();
                     let fail = s.int(6)? == 1;
                     let e = tok_err(&tok);
-                    let pred = if m.payload.is_some() { Pred::Refuse } else { Pred::Accept };
+                    let pred = if m.payload.is_some() {
+                        Pred::Refuse
+                    } else {
+                        Pred::Accept
+                    };
                     if pred == Pred::Accept && !fail {
                         sig.signature = tok.clone();
                         m.signatures.push(sig);
                     }
                     let e2 = e.clone();
                     let ap: Ap<B> = Box::new(move |b: B| {
-                        b.try_add_detached_signature(cs, &pl, &aad, |_| if fail { Err(e2) } else { Ok(tok) })
+                        b.try_add_detached_signature(cs, &pl, &aad, |_| {
+                            if fail {
+                                Err(e2)
+                            } else {
+                                Ok(tok)
+                            }
+                        })
                     });
-                    (pred, ap, if fail && pred == Pred::Accept { Some(e) } else { None })
+                    (
+                        pred,
+                        ap,
+                        if fail && pred == Pred::Accept {
+                            Some(e)
+                        } else {
+                            None
+                        },
+                    )
                 }
                 x => return herr(format!("CoseSign: unknown op {}", x)),
             }
@@ -808,7 +1130,11 @@ fn exec_sign(t: &Trace) -> HResult<Option<Violation>> {
 
 fn exec_sign1(t: &Trace) -> HResult<Option<Violation>> {
     type B = coset::CoseSign1Builder;
-    let mut b = if ctor_name(t) == "default" { B::default() } else { B::new() };
+    let mut b = if ctor_name(t) == "default" {
+        B::default()
+    } else {
+        B::new()
+    };
     let mut m = MSign1::default();
     drive!(b, t.steps, |s| {
         if let Some(x) = hdr_ops!(s, m, B) {
@@ -829,17 +1155,29 @@ fn exec_sign1(t: &Trace) -> HResult<Option<Violation>> {
                     let aad = s.bytes(0)?.to_vec();
                     let tok = s.bytes(1)?.to_vec();
                     m.signature = tok.clone();
-                    (Pred::Accept, ok(move |b: B| b.create_signature(&aad, |_| tok)), None)
+                    (
+                        Pred::Accept,
+                        ok(move |b: B| b.create_signature(&aad, |_| tok)),
+                        None,
+                    )
                 }
                 "create_detached_signature" => {
                     let pl = s.bytes(0)?.to_vec();
                     let aad = s.bytes(1)?.to_vec();
                     let tok = s.bytes(2)?.to_vec();
-                    let pred = if m.payload.is_some() { Pred::Refuse } else { Pred::Accept };
+                    let pred = if m.payload.is_some() {
+                        Pred::Refuse
+                    } else {
+                        Pred::Accept
+                    };
                     if pred == Pred::Accept {
                         m.signature = tok.clone();
                     }
-                    (pred, ok(move |b: B| b.create_detached_signature(&pl, &aad, |_| tok)), None)
+                    (
+                        pred,
+                        ok(move |b: B| b.create_detached_signature(&pl, &aad, |_| tok)),
+                        None,
+                    )
                 }
                 "try_create_signature" => {
                     let aad = s.bytes(0)?.to_vec();
@@ -850,7 +1188,9 @@ fn exec_sign1(t: &Trace) -> HResult<Option<Violation>> {
                         m.signature = tok.clone();
                     }
                     let e2 = e.clone();
-                    let ap: Ap<B> = Box::new(move |b: B| b.try_create_signature(&aad, |_| if fail { Err(e2) } else { Ok(tok) }));
+                    let ap: Ap<B> = Box::new(move |b: B| {
+                        b.try_create_signature(&aad, |_| if fail { Err(e2) } else { Ok(tok) })
+                    });
                     (Pred::Accept, ap, if fail { Some(e) } else { None })
                 }
                 "try_create_detached_signature" => {
@@ -859,14 +1199,33 @@ fn exec_sign1(t: &Trace) -> HResult<Option<Violation>> {
                     let tok = s.bytes(2)?.to_vec();
                     let fail = s.int(3)? == 1;
                     let e = tok_err(&tok);
-                    let pred = if m.payload.is_some() { Pred::Refuse } else { Pred::Accept };
+                    let pred = if m.payload.is_some() {
+                        Pred::Refuse
+                    } else {
+                        Pred::Accept
+                    };
                     if pred == Pred::Accept && !fail {
                         m.signature = tok.clone();
                     }
                     let e2 = e.clone();
-                    let ap: Ap<B> =
-                        Box::new(move |b: B| b.try_create_detached_signature(&pl, &aad, |_| if fail { Err(e2) } else { Ok(tok) }));
-                    (pred, ap, if fail && pred == Pred::Accept { Some(e) } else { None })
+                    let ap: Ap<B> = Box::new(move |b: B| {
+                        b.try_create_detached_signature(&pl, &aad, |_| {
+                            if fail {
+                                Err(e2)
+                            } else {
+                                Ok(tok)
+                            }
+                        })
+                    });
+                    (
+                        pred,
+                        ap,
+                        if fail && pred == Pred::Accept {
+                            Some(e)
+                        } else {
+                            None
+                        },
+                    )
                 }
                 x => return herr(format!("CoseSign1: unknown op {}", x)),
             }
@@ -889,7 +1248,11 @@ macro_rules! mac_like {
     ($fname:ident, $bt:ty, $mt:ty, $has_rcpt:expr, $from:expr, $rcpt_push:expr, $rcpt_get:expr, $name:expr) => {
         fn $fname(t: &Trace) -> HResult<Option<Violation>> {
             type B = $bt;
-            let mut b = if ctor_name(t) == "default" { B::default() } else { B::new() };
+            let mut b = if ctor_name(t) == "default" {
+                B::default()
+            } else {
+                B::new()
+            };
             let mut m = <$mt>::default();
             drive!(b, t.steps, |s| {
                 if let Some(x) = hdr_ops!(s, m, B) {
@@ -909,7 +1272,11 @@ macro_rules! mac_like {
                         "create_tag" => {
                             let aad = s.bytes(0)?.to_vec();
                             let tok = s.bytes(1)?.to_vec();
-                            let pred = if m.payload.is_none() { Pred::Refuse } else { Pred::Accept };
+                            let pred = if m.payload.is_none() {
+                                Pred::Refuse
+                            } else {
+                                Pred::Accept
+                            };
                             if pred == Pred::Accept {
                                 m.tag = tok.clone();
                             }
@@ -920,13 +1287,27 @@ macro_rules! mac_like {
                             let tok = s.bytes(1)?.to_vec();
                             let fail = s.int(2)? == 1;
                             let e = tok_err(&tok);
-                            let pred = if m.payload.is_none() { Pred::Refuse } else { Pred::Accept };
+                            let pred = if m.payload.is_none() {
+                                Pred::Refuse
+                            } else {
+                                Pred::Accept
+                            };
                             if pred == Pred::Accept && !fail {
                                 m.tag = tok.clone();
                             }
                             let e2 = e.clone();
-                            let ap: Ap<B> = Box::new(move |b: B| b.try_create_tag(&aad, |_| if fail { Err(e2) } else { Ok(tok) }));
-                            (pred, ap, if fail && pred == Pred::Accept { Some(e) } else { None })
+                            let ap: Ap<B> = Box::new(move |b: B| {
+                                b.try_create_tag(&aad, |_| if fail { Err(e2) } else { Ok(tok) })
+                            });
+                            (
+                                pred,
+                                ap,
+                                if fail && pred == Pred::Accept {
+                                    Some(e)
+                                } else {
+                                    None
+                                },
+                            )
                         }
                         "add_recipient" if $has_rcpt => {
                             let r = recipient_from_args(s, 0)?;
@@ -951,14 +1332,28 @@ macro_rules! mac_like {
                 return Ok(Some(v));
             }
             if m != got {
-                return Ok(Some(field_diff_mac(&format!("{:?}", m), &format!("{:?}", got), &m.payload, &got.payload, &m.tag, &got.tag)));
+                return Ok(Some(field_diff_mac(
+                    &format!("{:?}", m),
+                    &format!("{:?}", got),
+                    &m.payload,
+                    &got.payload,
+                    &m.tag,
+                    &got.tag,
+                )));
             }
             Ok(enc_obs(built, m.to_coset()))
         }
     };
 }
 
-fn field_diff_mac(m: &str, g: &str, mp: &Option<Vec<u8>>, gp: &Option<Vec<u8>>, mt: &[u8], gt: &[u8]) -> Violation {
+fn field_diff_mac(
+    m: &str,
+    g: &str,
+    mp: &Option<Vec<u8>>,
+    gp: &Option<Vec<u8>>,
+    mt: &[u8],
+    gt: &[u8],
+) -> Violation {
     let f = if mp != gp {
         "payload"
     } else if mt != gt {
@@ -966,7 +1361,10 @@ fn field_diff_mac(m: &str, g: &str, mp: &Option<Vec<u8>>, gp: &Option<Vec<u8>>, 
     } else {
         "recipients"
     };
-    Violation::new(format!("C19.field({})", f), format!("model {} != built {}", short(m), short(g)))
+    Violation::new(
+        format!("C19.field({})", f),
+        format!("model {} != built {}", short(m), short(g)),
+    )
 }
 
 mac_like!(
@@ -976,7 +1374,9 @@ mac_like!(
     true,
     |b: &coset::CoseMac| MMac::from_coset(b),
     |m: &mut MMac, r: MRecipient| m.recipients.push(r),
-    |cr: coset::CoseRecipient| -> Ap<coset::CoseMacBuilder> { ok(move |b: coset::CoseMacBuilder| b.add_recipient(cr)) },
+    |cr: coset::CoseRecipient| -> Ap<coset::CoseMacBuilder> {
+        ok(move |b: coset::CoseMacBuilder| b.add_recipient(cr))
+    },
     "CoseMac"
 );
 mac_like!(
@@ -986,13 +1386,19 @@ mac_like!(
     false,
     |b: &coset::CoseMac0| MMac0::from_coset(b),
     |_m: &mut MMac0, _r: MRecipient| {},
-    |_cr: coset::CoseRecipient| -> Ap<coset::CoseMac0Builder> { ok(move |b: coset::CoseMac0Builder| b) },
+    |_cr: coset::CoseRecipient| -> Ap<coset::CoseMac0Builder> {
+        ok(move |b: coset::CoseMac0Builder| b)
+    },
     "CoseMac0"
 );
 
 fn exec_encrypt(t: &Trace) -> HResult<Option<Violation>> {
     type B = coset::CoseEncryptBuilder;
-    let mut b = if ctor_name(t) == "default" { B::default() } else { B::new() };
+    let mut b = if ctor_name(t) == "default" {
+        B::default()
+    } else {
+        B::new()
+    };
     let mut m = MEncrypt::default();
     drive!(b, t.steps, |s| {
         if let Some(x) = hdr_ops!(s, m, B) {
@@ -1009,7 +1415,11 @@ fn exec_encrypt(t: &Trace) -> HResult<Option<Violation>> {
                     let aad = s.bytes(1)?.to_vec();
                     let tok = s.bytes(2)?.to_vec();
                     m.ciphertext = Some(tok.clone());
-                    (Pred::Accept, ok(move |b: B| b.create_ciphertext(&pt, &aad, |_, _| tok)), None)
+                    (
+                        Pred::Accept,
+                        ok(move |b: B| b.create_ciphertext(&pt, &aad, |_, _| tok)),
+                        None,
+                    )
                 }
                 "try_create_ciphertext" => {
                     let pt = s.bytes(0)?.to_vec();
@@ -1021,7 +1431,13 @@ fn exec_encrypt(t: &Trace) -> HResult<Option<Violation>> {
                         m.ciphertext = Some(tok.clone());
                     }
                     let e2 = e.clone();
-                    let ap: Ap<B> = Box::new(move |b: B| b.try_create_ciphertext(&pt, &aad, |_, _| if fail { Err(e2) } else { Ok(tok) }));
+                    let ap: Ap<B> = Box::new(move |b: B| {
+                        b.try_create_ciphertext(
+                            &pt,
+                            &aad,
+                            |_, _| if fail { Err(e2) } else { Ok(tok) },
+                        )
+                    });
                     (Pred::Accept, ap, if fail { Some(e) } else { None })
                 }
                 "add_recipient" => {
@@ -1049,7 +1465,11 @@ fn exec_encrypt(t: &Trace) -> HResult<Option<Violation>> {
 
 fn exec_encrypt0(t: &Trace) -> HResult<Option<Violation>> {
     type B = coset::CoseEncrypt0Builder;
-    let mut b = if ctor_name(t) == "default" { B::default() } else { B::new() };
+    let mut b = if ctor_name(t) == "default" {
+        B::default()
+    } else {
+        B::new()
+    };
     let mut m = MEncrypt0::default();
     drive!(b, t.steps, |s| {
         if let Some(x) = hdr_ops!(s, m, B) {
@@ -1066,7 +1486,11 @@ fn exec_encrypt0(t: &Trace) -> HResult<Option<Violation>> {
                     let aad = s.bytes(1)?.to_vec();
                     let tok = s.bytes(2)?.to_vec();
                     m.ciphertext = Some(tok.clone());
-                    (Pred::Accept, ok(move |b: B| b.create_ciphertext(&pt, &aad, |_, _| tok)), None)
+                    (
+                        Pred::Accept,
+                        ok(move |b: B| b.create_ciphertext(&pt, &aad, |_, _| tok)),
+                        None,
+                    )
                 }
                 "try_create_ciphertext" => {
                     let pt = s.bytes(0)?.to_vec();
@@ -1078,7 +1502,13 @@ fn exec_encrypt0(t: &Trace) -> HResult<Option<Violation>> {
                         m.ciphertext = Some(tok.clone());
                     }
                     let e2 = e.clone();
-                    let ap: Ap<B> = Box::new(move |b: B| b.try_create_ciphertext(&pt, &aad, |_, _| if fail { Err(e2) } else { Ok(tok) }));
+                    let ap: Ap<B> = Box::new(move |b: B| {
+                        b.try_create_ciphertext(
+                            &pt,
+                            &aad,
+                            |_, _| if fail { Err(e2) } else { Ok(tok) },
+                        )
+                    });
                     (Pred::Accept, ap, if fail { Some(e) } else { None })
                 }
                 x => return herr(format!("CoseEncrypt0: unknown op {}", x)),
@@ -1099,7 +1529,11 @@ fn exec_encrypt0(t: &Trace) -> HResult<Option<Violation>> {
 
 fn exec_recipient(t: &Trace) -> HResult<Option<Violation>> {
     type B = coset::CoseRecipientBuilder;
-    let mut b = if ctor_name(t) == "default" { B::default() } else { B::new() };
+    let mut b = if ctor_name(t) == "default" {
+        B::default()
+    } else {
+        B::new()
+    };
     let mut m = MRecipient::default();
     drive!(b, t.steps, |s| {
         if let Some(x) = hdr_ops!(s, m, B) {
@@ -1123,11 +1557,19 @@ fn exec_recipient(t: &Trace) -> HResult<Option<Violation>> {
                     let pt = s.bytes(1)?.to_vec();
                     let aad = s.bytes(2)?.to_vec();
                     let tok = s.bytes(3)?.to_vec();
-                    let pred = if ctx_is_recipient(&cn) { Pred::Accept } else { Pred::Refuse };
+                    let pred = if ctx_is_recipient(&cn) {
+                        Pred::Accept
+                    } else {
+                        Pred::Refuse
+                    };
                     if pred == Pred::Accept {
                         m.ciphertext = Some(tok.clone());
                     }
-                    (pred, ok(move |b: B| b.create_ciphertext(ctx, &pt, &aad, |_, _| tok)), None)
+                    (
+                        pred,
+                        ok(move |b: B| b.create_ciphertext(ctx, &pt, &aad, |_, _| tok)),
+                        None,
+                    )
                 }
                 "try_create_ciphertext" => {
                     let cn = s.sym(0)?.to_string();
@@ -1137,14 +1579,33 @@ fn exec_recipient(t: &Trace) -> HResult<Option<Violation>> {
                     let tok = s.bytes(3)?.to_vec();
                     let fail = s.int(4)? == 1;
                     let e = tok_err(&tok);
-                    let pred = if ctx_is_recipient(&cn) { Pred::Accept } else { Pred::Refuse };
+                    let pred = if ctx_is_recipient(&cn) {
+                        Pred::Accept
+                    } else {
+                        Pred::Refuse
+                    };
                     if pred == Pred::Accept && !fail {
                         m.ciphertext = Some(tok.clone());
                     }
                     let e2 = e.clone();
-                    let ap: Ap<B> =
-                        Box::new(move |b: B| b.try_create_ciphertext(ctx, &pt, &aad, |_, _| if fail { Err(e2) } else { Ok(tok) }));
-                    (pred, ap, if fail && pred == Pred::Accept { Some(e) } else { None })
+                    let ap: Ap<B> = Box::new(move |b: B| {
+                        b.try_create_ciphertext(ctx, &pt, &aad, |_, _| {
+                            if fail {
+                                Err(e2)
+                            } else {
+                                Ok(tok)
+                            }
+                        })
+                    });
+                    (
+                        pred,
+                        ap,
+                        if fail && pred == Pred::Accept {
+                            Some(e)
+                        } else {
+                            None
+                        },
+                    )
                 }
                 x => return herr(format!("CoseRecipient: unknown op {}", x)),
             }
@@ -1175,7 +1636,11 @@ fn exec_key(t: &Trace) -> HResult<Option<Violation>> {
             let cv = s.i64(0)?;
             let (x, y) = (s.bytes(1)?.to_vec(), s.bytes(2)?.to_vec());
             m.kty = MReg::Assigned(2);
-            m.params = vec![(MLabel::Int(-1), MValue::Int(cv as i128)), (MLabel::Int(-2), bv(&x)), (MLabel::Int(-3), bv(&y))];
+            m.params = vec![
+                (MLabel::Int(-1), MValue::Int(cv as i128)),
+                (MLabel::Int(-2), bv(&x)),
+                (MLabel::Int(-3), bv(&y)),
+            ];
             B::new_ec2_pub_key(curve(cv)?, x, y)
         }
         Some(("new_ec2_pub_key_y_sign", s)) => {
@@ -1183,12 +1648,20 @@ fn exec_key(t: &Trace) -> HResult<Option<Violation>> {
             let x = s.bytes(1)?.to_vec();
             let sign = s.int(2)? == 1;
             m.kty = MReg::Assigned(2);
-            m.params = vec![(MLabel::Int(-1), MValue::Int(cv as i128)), (MLabel::Int(-2), bv(&x)), (MLabel::Int(-3), MValue::Bool(sign))];
+            m.params = vec![
+                (MLabel::Int(-1), MValue::Int(cv as i128)),
+                (MLabel::Int(-2), bv(&x)),
+                (MLabel::Int(-3), MValue::Bool(sign)),
+            ];
             B::new_ec2_pub_key_y_sign(curve(cv)?, x, sign)
         }
         Some(("new_ec2_priv_key", s)) => {
             let cv = s.i64(0)?;
-            let (x, y, d) = (s.bytes(1)?.to_vec(), s.bytes(2)?.to_vec(), s.bytes(3)?.to_vec());
+            let (x, y, d) = (
+                s.bytes(1)?.to_vec(),
+                s.bytes(2)?.to_vec(),
+                s.bytes(3)?.to_vec(),
+            );
             m.kty = MReg::Assigned(2);
             m.params = vec![
                 (MLabel::Int(-1), MValue::Int(cv as i128)),
@@ -1216,7 +1689,10 @@ fn exec_key(t: &Trace) -> HResult<Option<Violation>> {
                 let (ml, cl) = match s.sym(0)? {
                     "int" => {
                         let i = s.i64(1)?;
-                        (MReg::Assigned(i), coset::RegisteredLabel::Assigned(reg_or_herr!(iana::KeyType, i)?))
+                        (
+                            MReg::Assigned(i),
+                            coset::RegisteredLabel::Assigned(reg_or_herr!(iana::KeyType, i)?),
+                        )
                     }
                     _ => {
                         let x = s.text(1)?.to_string();
@@ -1288,7 +1764,11 @@ fn exec_key(t: &Trace) -> HResult<Option<Violation>> {
 
 fn exec_claims(t: &Trace) -> HResult<Option<Violation>> {
     type B = coset::cwt::ClaimsSetBuilder;
-    let mut b = if ctor_name(t) == "default" { B::default() } else { B::new() };
+    let mut b = if ctor_name(t) == "default" {
+        B::default()
+    } else {
+        B::new()
+    };
     let mut m = MClaims::default();
     drive!(b, t.steps, |s| {
         match s.name.as_str() {
@@ -1335,7 +1815,11 @@ fn exec_claims(t: &Trace) -> HResult<Option<Violation>> {
                 let name = reg_or_herr!(iana::CwtClaimName, n)?;
                 let v = value_from_arg(s, 1)?;
                 let cv = v.to_value();
-                let pred = if (1..=7).contains(&n) { Pred::Refuse } else { Pred::Accept };
+                let pred = if (1..=7).contains(&n) {
+                    Pred::Refuse
+                } else {
+                    Pred::Accept
+                };
                 if pred == Pred::Accept {
                     m.rest.push((MRegP::Assigned(n), v));
                 }
@@ -1353,7 +1837,11 @@ fn exec_claims(t: &Trace) -> HResult<Option<Violation>> {
                 let v = value_from_arg(s, 1)?;
                 let cv = v.to_value();
                 // private use: integers below -65536
-                let pred = if id < -65536 { Pred::Accept } else { Pred::Refuse };
+                let pred = if id < -65536 {
+                    Pred::Accept
+                } else {
+                    Pred::Refuse
+                };
                 if pred == Pred::Accept {
                     m.rest.push((MRegP::Private(id), v));
                 }
@@ -1377,7 +1865,11 @@ fn exec_claims(t: &Trace) -> HResult<Option<Violation>> {
 
 fn exec_party(t: &Trace) -> HResult<Option<Violation>> {
     type B = coset::PartyInfoBuilder;
-    let mut b = if ctor_name(t) == "default" { B::default() } else { B::new() };
+    let mut b = if ctor_name(t) == "default" {
+        B::default()
+    } else {
+        B::new()
+    };
     let mut m = MPartyInfo::default();
     drive!(b, t.steps, |s| {
         match s.name.as_str() {
@@ -1413,7 +1905,11 @@ fn exec_party(t: &Trace) -> HResult<Option<Violation>> {
 
 fn exec_supp(t: &Trace) -> HResult<Option<Violation>> {
     type B = coset::SuppPubInfoBuilder;
-    let mut b = if ctor_name(t) == "default" { B::default() } else { B::new() };
+    let mut b = if ctor_name(t) == "default" {
+        B::default()
+    } else {
+        B::new()
+    };
     let mut m = MSuppPubInfo::default();
     drive!(b, t.steps, |s| {
         match s.name.as_str() {
@@ -1461,13 +1957,20 @@ fn item_equiv(a: &refcbor::Item, b: &refcbor::Item) -> bool {
                     _ => false,
                 }
         }
-        (Array(x), Array(y)) => x.len() == y.len() && x.iter().zip(y).all(|(p, q)| item_equiv(p, q)),
+        (Array(x), Array(y)) => {
+            x.len() == y.len() && x.iter().zip(y).all(|(p, q)| item_equiv(p, q))
+        }
         (Map(x), Map(y)) => {
-            x.len() == y.len() && x.iter().zip(y).all(|((k1, v1), (k2, v2))| item_equiv(k1, k2) && item_equiv(v1, v2))
+            x.len() == y.len()
+                && x.iter()
+                    .zip(y)
+                    .all(|((k1, v1), (k2, v2))| item_equiv(k1, k2) && item_equiv(v1, v2))
         }
         (Tag(t1, x), Tag(t2, y)) => t1 == t2 && item_equiv(x, y),
         (Simple(x), Simple(y)) => x == y,
-        (Float(w1, x), Float(w2, y)) => float_val(*w1, *x).to_bits() == float_val(*w2, *y).to_bits(),
+        (Float(w1, x), Float(w2, y)) => {
+            float_val(*w1, *x).to_bits() == float_val(*w2, *y).to_bits()
+        }
         _ => false,
     }
 }
@@ -1499,7 +2002,11 @@ fn float_val(w: u8, bits: u64) -> f64 {
 
 fn exec_kdf(t: &Trace) -> HResult<Option<Violation>> {
     type B = coset::CoseKdfContextBuilder;
-    let mut b = if ctor_name(t) == "default" { B::default() } else { B::new() };
+    let mut b = if ctor_name(t) == "default" {
+        B::default()
+    } else {
+        B::new()
+    };
     let mut m = MKdf::default();
     let parties = party_palette();
     let supps = supp_pub_palette();
@@ -1542,17 +2049,41 @@ fn exec_kdf(t: &Trace) -> HResult<Option<Violation>> {
     let built = b.build();
     let bytes = match guarded(|| built.clone().to_vec()) {
         Ok(Ok(x)) => x,
-        Ok(Err(e)) => return Ok(Some(Violation::new("C19.field(kdf-encoding)", format!("built context does not encode: {:?}", e)))),
-        Err(p) => return Ok(Some(Violation::new("C19.field(kdf-encoding)", format!("encoding the built context panicked: {}", p)))),
+        Ok(Err(e)) => {
+            return Ok(Some(Violation::new(
+                "C19.field(kdf-encoding)",
+                format!("built context does not encode: {:?}", e),
+            )))
+        }
+        Err(p) => {
+            return Ok(Some(Violation::new(
+                "C19.field(kdf-encoding)",
+                format!("encoding the built context panicked: {}", p),
+            )))
+        }
     };
     let got = match refcbor::read_exact(&bytes) {
         Ok(i) => i,
-        Err(e) => return Ok(Some(Violation::new("C19.field(kdf-encoding)", format!("encoding is not CBOR: {:?} {}", e, crate::util::hex_short(&bytes))))),
+        Err(e) => {
+            return Ok(Some(Violation::new(
+                "C19.field(kdf-encoding)",
+                format!(
+                    "encoding is not CBOR: {:?} {}",
+                    e,
+                    crate::util::hex_short(&bytes)
+                ),
+            )))
+        }
     };
     let want = m.to_item();
     if !item_equiv(&want, &got) {
         // name the slot that differs
-        let names = ["algorithm_id", "party_u_info", "party_v_info", "supp_pub_info"];
+        let names = [
+            "algorithm_id",
+            "party_u_info",
+            "party_v_info",
+            "supp_pub_info",
+        ];
         let mut field = "supp_priv_info".to_string();
         if let (Some(w), Some(g)) = (want.as_array(), got.as_array()) {
             for i in 0..4 {
@@ -1567,7 +2098,11 @@ fn exec_kdf(t: &Trace) -> HResult<Option<Violation>> {
         }
         return Ok(Some(Violation::new(
             format!("C19.field({})", field),
-            format!("model encodes as {} but built value encodes as {}", crate::util::hex_short(&refcbor::encode(&want)), crate::util::hex_short(&bytes)),
+            format!(
+                "model encodes as {} but built value encodes as {}",
+                crate::util::hex_short(&refcbor::encode(&want)),
+                crate::util::hex_short(&bytes)
+            ),
         )));
     }
     // Second observation: the model's own encoding, decoded by coset and re-encoded, must give
@@ -1637,7 +2172,11 @@ impl Engine for C19 {
         if rng.chance(1, 50) {
             // 1 in 10 of the long ones is very long (65-300 calls: growth boundaries of the
             // underlying vectors, anything that counts calls)
-            let n = if rng.chance(1, 10) { rng.range(65, 300) } else { rng.range(17, 64) };
+            let n = if rng.chance(1, 10) {
+                rng.range(65, 300)
+            } else {
+                rng.range(17, 64)
+            };
             let repeat = rng.bool();
             let first = gen_op(builder, &mut rng);
             for i in 0..n {
@@ -1678,7 +2217,10 @@ impl Engine for C19 {
         }
         for w in ops.windows(3) {
             let mut h = Hasher64::new();
-            h.str(&builder).str(&w[0].name).str(&w[1].name).str(&w[2].name);
+            h.str(&builder)
+                .str(&w[0].name)
+                .str(&w[1].name)
+                .str(&w[2].name);
             st.distinct(3, h.finish());
         }
         for o in &ops {
@@ -1712,8 +2254,18 @@ impl Engine for C19 {
         shrink_args(t)
     }
     fn finding_key(&self, t: &Trace, invariant: &str) -> String {
-        let ops: Vec<&str> = t.steps.iter().filter(|s| s.kind == "op").map(|s| s.name.as_str()).collect();
-        format!("{}:{}:{}", t.meta("builder").unwrap_or("?"), invariant, ops.join(","))
+        let ops: Vec<&str> = t
+            .steps
+            .iter()
+            .filter(|s| s.kind == "op")
+            .map(|s| s.name.as_str())
+            .collect();
+        format!(
+            "{}:{}:{}",
+            t.meta("builder").unwrap_or("?"),
+            invariant,
+            ops.join(",")
+        )
     }
 }
 
